@@ -110,6 +110,7 @@ func (wp *workerPool) clean(scratch *[]*workerChan) {
 	criticalTime := time.Now().Add(-maxIdleWorkerDuration)
 
 	wp.lock.Lock()
+	vhook("wp.clean.crit", wp, criticalTime, 0, len(wp.ready))
 	ready := wp.ready
 	n := len(ready)
 
@@ -125,6 +126,7 @@ func (wp *workerPool) clean(scratch *[]*workerChan) {
 	}
 	i := r
 	if i == -1 {
+		vhook("wp.clean.none", wp, nil, 0, n)
 		wp.lock.Unlock()
 		return
 	}
